@@ -74,6 +74,22 @@ func (st *State) onLockAcquired(fr *Frame, m Val, id, mode string, pos token.Pos
 			if idx < 0 {
 				continue
 			}
+			if mt, isMap := f.Type().Underlying().(*types.Map); isMap {
+				// the map object is fixed; its contents may have been changed by other threads
+				mref := sel(st.arr(heapName(e, p.RootT, "."+g.Field), arrSort(SInt)), p.Root)
+				dom, ln, vals, vcomps := e.mapNames(mt)
+				d := st.arr(dom, "(Array Int (Array Int Bool))")
+				st.setArr(dom, "(Array Int (Array Int Bool))", store(d, mref, st.freshSort("interf.dom", "(Array Int Bool)")))
+				l := st.arr(ln, "(Array Int Int)")
+				nl := st.fresh("interf.len", SInt)
+				st.assume(fmt.Sprintf("(>= %s 0)", nl))
+				st.setArr(ln, "(Array Int Int)", store(l, mref, nl))
+				for i, nm := range vals {
+					a := st.arr(nm, arr2Sort(vcomps[i].Sort))
+					st.setArr(nm, arr2Sort(vcomps[i].Sort), store(a, mref, st.freshSort("interf.val", "(Array Int "+smtSort(vcomps[i].Sort)+")")))
+				}
+				continue
+			}
 			for _, cp := range e.flatten(f.Type()) {
 				name := heapName(e, p.RootT, "."+g.Field+cp.Path)
 				e.noteRef(name, cp)
@@ -91,6 +107,7 @@ func (st *State) onLockAcquired(fr *Frame, m Val, id, mode string, pos token.Pos
 		st.assume(e.evalClause(sc, inv))
 	}
 	st.lockSnap = st.snapshot()
+	st.lockSnaps = append(st.lockSnaps, st.lockSnap)
 }
 
 // onLockReleasing: the lock invariant must hold again when the mutex is released.
@@ -122,6 +139,7 @@ func (st *State) guardAccess(fr *Frame, p *Ptr, write bool, pos token.Pos) {
 	if p.Kind != PObj || p.Path == "" {
 		return
 	}
+	st.guardPublished(fr, p, write, pos)
 	e := st.e
 	tn := e.P.relType(p.RootT)
 	c := e.contracts["type "+tn]
@@ -213,8 +231,31 @@ func (st *State) guardMapAccess(fr *Frame, m Val, write bool, pos token.Pos) {
 	st.oblige("lock", fmt.Sprintf("held:%s[]:%s", o.what, rw), o.props, goal, pos)
 }
 
+// checkNoCallOutUnderLock: a mutex declared "nocallout" is held only across straight-line code.
+func (st *State) checkNoCallOutUnderLock(what string, pos token.Pos) {
+	e := st.e
+	for id := range st.locks {
+		at := indexAt(id)
+		tnf := id[:at] // Type.field
+		i := strings.Index(tnf, ".")
+		if i < 0 {
+			continue
+		}
+		c := e.contracts["type "+tnf[:i]]
+		if c == nil {
+			continue
+		}
+		for _, nf := range c.NoCallOut {
+			if nf == tnf[i+1:] {
+				st.oblige("lock", "nocallout:"+tnf, c.Props, "false", pos)
+			}
+		}
+	}
+}
+
 // checkCallOutAllowed: call-outs declared "calloutunder" must run while the receiver's mutex is held.
 func (st *State) checkCallOutAllowed(fr *Frame, kind string, pos token.Pos) {
+	st.checkNoCallOutUnderLock(kind, pos)
 	e := st.e
 	i := strings.Index(kind, ".")
 	if i <= 0 {
@@ -246,19 +287,151 @@ func (st *State) checkCallOutAllowed(fr *Frame, kind string, pos token.Pos) {
 		st.oblige("lock", "callout-under:"+kind, mergeProps(props, nil), goal, pos)
 	}
 }
-func (st *State) onGo(fr *Frame, x *ssa.Go, fv Val)                {}
-func (st *State) onChanRecv(fr *Frame, ch Val, pos token.Pos)      {}
-func (st *State) onChanClose(fr *Frame, ch Val, pos token.Pos)     {}
+
+// evalHolds evaluates the (key, object) expressions of a holds clause.
+func (st *State) evalHolds(vars map[string]Val, old *Snapshot, h [3]string, where string) (string, string) {
+	e := st.e
+	sc := &SpecCtx{st: st, vars: vars, old: old, where: where}
+	kx, err := parseSpecExpr(h[0])
+	if err != nil {
+		e.unsupportedf("holds: %v", err)
+	}
+	ox, err := parseSpecExpr(h[1])
+	if err != nil {
+		e.unsupportedf("holds: %v", err)
+	}
+	var k, o Val
+	func() {
+		defer func() {
+			if r := recover(); r != nil {
+				if se, ok := r.(specErr); ok {
+					e.unsupportedf("holds clause: %s", se.msg)
+				}
+				panic(r)
+			}
+		}()
+		k, o = sc.eval(kx), sc.eval(ox)
+	}()
+	return k.C[0], o.C[0]
+}
+
+// onGo: a go statement starts a thread. The tokens named by the closure's holds clauses are transferred to it;
+// its requires clauses are obligations here; it must not capture a slice borrowed from this call's caller.
+func (st *State) onGo(fr *Frame, x *ssa.Go, fv Val) {
+	e := st.e
+	if fv.F == nil {
+		return
+	}
+	fn := fv.F.Fn
+	name := fn.RelString(e.P.TPkg)
+	c := e.contracts[name]
+	vars := map[string]Val{}
+	for i, v := range fn.FreeVars {
+		if i < len(fv.F.Bindings) {
+			vars[v.Name()] = fv.F.Bindings[i]
+		}
+	}
+	// ownership: captured slices must not alias memory borrowed from the caller
+	for i, v := range fn.FreeVars {
+		if i >= len(fv.F.Bindings) {
+			continue
+		}
+		b := fv.F.Bindings[i]
+		pt, ok := b.T.Underlying().(*types.Pointer)
+		if !ok {
+			continue
+		}
+		if _, isSlice := pt.Elem().Underlying().(*types.Slice); !isSlice {
+			continue
+		}
+		cell := st.loadPtrQuiet(st.asPtr(b))
+		goal := "true"
+		if who, borrowed := st.borrowed[cell.C[0]]; borrowed {
+			goal = "false"
+			_ = who
+		}
+		props := e.curProps
+		if c != nil {
+			props = mergeProps(c.Props, nil)
+		}
+		st.oblige("own", "go:"+name+"#"+v.Name(), props, goal, x.Pos())
+	}
+	if c == nil {
+		return
+	}
+	sc := &SpecCtx{st: st, vars: vars, old: st.snapshot(), where: "go " + name}
+	st.evalLets(sc, c)
+	for i, r := range c.Requires {
+		label := r.Label
+		if label == "" {
+			label = fmt.Sprintf("req%d", i+1)
+		}
+		st.oblige("pre", name+"."+label, mergeProps(r.Props, e.curProps), e.evalClause(sc, r), x.Pos())
+	}
+	for _, h := range c.Holds {
+		k, o := st.evalHolds(vars, sc.old, h, "go "+name)
+		var conds []string
+		idx := -1
+		for i, t := range st.tokens {
+			if t.typ != h[2] {
+				continue
+			}
+			if t.key == k && t.obj == o {
+				idx = i
+				conds = []string{"true"}
+				break
+			}
+			conds = append(conds, and(eq(t.key, k), eq(t.obj, o)))
+			if idx < 0 {
+				idx = i
+			}
+		}
+		st.oblige("tok", "transfer:"+name, mergeProps(c.Props, nil), or(conds...), x.Pos())
+		if idx >= 0 {
+			st.tokens = append(append([]buildTok{}, st.tokens[:idx]...), st.tokens[idx+1:]...)
+		}
+	}
+}
 func (st *State) checkBorrowWrite(fr *Frame, s Val, pos token.Pos) {}
 func (st *State) checkBorrowRead(fr *Frame, s Val, pos token.Pos)  {}
-func (st *State) onFunctionEntry(fr *Frame)                        {}
+
+// onFunctionEntry: slice parameters are borrowed from the caller; thread closures start with their tokens.
+func (st *State) onFunctionEntry(fr *Frame) {
+	for i, p := range fr.fn.Params {
+		if _, ok := p.Type().Underlying().(*types.Slice); ok {
+			st.borrowed[fr.params[i].C[0]] = p.Name()
+		}
+	}
+	c := fr.contract
+	if c == nil {
+		return
+	}
+	for _, h := range c.Holds {
+		k, o := st.evalHolds(fr.specVars, fr.old, h, fr.fn.Name()+" holds")
+		st.tokens = append(st.tokens, buildTok{key: k, obj: o, typ: h[2]})
+	}
+}
 func (st *State) onFunctionExit(fr *Frame, pos token.Pos) {
 	// every lock acquired by the function is released on return
 	for id := range st.locks {
 		st.oblige("lock", "held-at-return:"+id[:indexAt(id)], st.e.curProps, "false", pos)
 	}
+	// every build token obtained (or owned at entry) has been consumed or handed to a goroutine
+	leak := "true"
+	for _, t := range st.tokens {
+		if t.typ != "*" { // tokens lent by the caller through a precondition stay with the caller
+			leak = "false"
+		}
+	}
+	if st.usesTokens(fr) {
+		st.oblige("tok", "leak", st.e.curProps, leak, pos)
+	}
 }
-func (st *State) onModularCall(fr *Frame, fn *ssa.Function, c *Contract, args []Val, pos token.Pos) {}
+func (st *State) onModularCall(fr *Frame, fn *ssa.Function, c *Contract, args []Val, pos token.Pos) {
+	if c != nil && c.Flags["pure"] == "" {
+		st.checkNoCallOutUnderLock(fn.Name(), pos)
+	}
+}
 
 func indexAt(s string) int {
 	for i := 0; i < len(s); i++ {
@@ -267,4 +440,251 @@ func indexAt(s string) int {
 		}
 	}
 	return len(s)
+}
+
+// ---- linear tokens for per-key build locks (tokenmap), publication through channel close (chanpub) ----
+
+type buildTok struct {
+	key string // key term (map key)
+	obj string // the value inserted (e.g. the *kl)
+	typ string // owning type + field, e.g. Failover.keyLocks
+}
+
+// tokenMapOf: is map m (read from a guarded field) declared a token map? Returns the owner record.
+func (st *State) tokenMapOf(m Val) (*Contract, mapOwner, bool) {
+	if len(m.C) != 1 {
+		return nil, mapOwner{}, false
+	}
+	o, ok := st.mapOwner[m.C[0]]
+	if !ok {
+		return nil, o, false
+	}
+	i := strings.Index(o.what, ".")
+	c := st.e.contracts["type "+o.what[:i]]
+	if c == nil {
+		return nil, o, false
+	}
+	for _, f := range c.TokenMaps {
+		if f == o.what[i+1:] {
+			return c, o, true
+		}
+	}
+	return nil, o, false
+}
+
+// onMapInsert: inserting into a token map creates the token of that key (the key must have been absent).
+func (st *State) onMapInsert(fr *Frame, m, k, v Val, had string, pos token.Pos) {
+	c, o, ok := st.tokenMapOf(m)
+	if !ok {
+		return
+	}
+	e := st.e
+	st.sawTokens = true
+	st.oblige("tok", "dup:"+o.what, o.props, not(had), pos)
+	st.tokens = append(st.tokens, buildTok{key: k.C[0], obj: v.C[0], typ: o.what})
+	field := o.what[strings.Index(o.what, ".")+1:]
+	for _, cl := range c.MapInserts[field] {
+		// definitional ghost facts about the freshly allocated value
+		goal := "false"
+		if st.private[v.C[0]] {
+			goal = "true"
+		}
+		st.oblige("own", "fresh-insert:"+o.what, o.props, goal, pos)
+		sc := &SpecCtx{st: st, vars: map[string]Val{"key": k, "value": v}, old: fr.old, where: "mapinsert " + o.what}
+		st.assume(e.evalClause(sc, cl))
+	}
+	delete(st.private, v.C[0]) // published
+	e.assumeUsed("token linearity (M2): the set of outstanding tokens equals the key set of the token map, so at most one thread holds the token of a key")
+}
+
+// onMapDelete: deleting from a token map consumes the token of that key.
+func (st *State) onMapDelete(fr *Frame, m, k Val, pos token.Pos) {
+	_, o, ok := st.tokenMapOf(m)
+	if !ok {
+		return
+	}
+	var conds []string
+	idx := -1
+	for i, t := range st.tokens {
+		if t.typ != o.what {
+			continue
+		}
+		if t.key == k.C[0] {
+			idx = i
+			conds = []string{"true"}
+			break
+		}
+		conds = append(conds, eq(t.key, k.C[0]))
+		if idx < 0 {
+			idx = i
+		}
+	}
+	st.oblige("tok", "consume:"+o.what, o.props, or(conds...), pos)
+	if idx >= 0 {
+		st.released = append(st.released, st.tokens[idx])
+		st.tokens = append(append([]buildTok{}, st.tokens[:idx]...), st.tokens[idx+1:]...)
+	}
+}
+
+// tokHeld returns an SMT term that is true iff a token for key term k is held.
+func (st *State) tokHeld(k string) string {
+	var conds []string
+	for _, t := range st.tokens {
+		if t.key == k {
+			return "true"
+		}
+		conds = append(conds, eq(t.key, k))
+	}
+	return or(conds...)
+}
+
+// noteChanOwner remembers which object a channel was read from (for chanpub / published rules).
+func (st *State) noteChanOwner(p *Ptr, v Val) {
+	if p.Kind != PObj || p.Path == "" || len(v.C) != 1 {
+		return
+	}
+	if _, ok := v.T.Underlying().(*types.Chan); !ok {
+		return
+	}
+	tn := st.e.P.relType(p.RootT)
+	c := st.e.contracts["type "+tn]
+	if c == nil {
+		return
+	}
+	f := strings.TrimPrefix(p.Path, ".")
+	if _, ok := c.ChanPubs[f]; ok {
+		st.chanOwner[v.C[0]] = chanOwner{typ: tn, root: p.Root, field: f, rootT: p.RootT}
+	}
+}
+
+type chanOwner struct {
+	typ, root, field string
+	rootT            types.Type
+}
+
+// onChanClose: closing a publication channel requires the token of its object and the publication predicate.
+func (st *State) onChanClose(fr *Frame, ch Val, pos token.Pos) {
+	o, ok := st.chanOwner[ch.C[0]]
+	if !ok {
+		return
+	}
+	e := st.e
+	c := e.contracts["type "+o.typ]
+	self := Val{T: types.NewPointer(o.rootT), C: []string{o.root}}
+	// the closer must be the owner: it holds (or has just released) the token whose object this is
+	owner := "false"
+	for _, t := range append(append([]buildTok{}, st.tokens...), st.released...) {
+		if t.obj == o.root {
+			owner = "true"
+		}
+	}
+	if st.private[o.root] {
+		owner = "true"
+	}
+	st.oblige("tok", "close-by-owner:"+o.typ+"."+o.field, c.Props, owner, pos)
+	for i, cl := range c.ChanPubs[o.field] {
+		sc := &SpecCtx{st: st, vars: map[string]Val{"self": self}, old: fr.old, where: "chanpub " + o.typ}
+		label := cl.Label
+		if label == "" {
+			label = fmt.Sprintf("%s.%s#%d", o.typ, o.field, i+1)
+		}
+		props := cl.Props
+		if len(props) == 0 {
+			props = c.Props
+		}
+		st.oblige("pre", "close.pub:"+label, props, e.evalClause(sc, cl), pos)
+	}
+}
+
+// onChanRecv: after a completed receive the published fields hold what the owner published.
+func (st *State) onChanRecv(fr *Frame, ch Val, pos token.Pos) {
+	o, ok := st.chanOwner[ch.C[0]]
+	if !ok {
+		return
+	}
+	e := st.e
+	c := e.contracts["type "+o.typ]
+	stt := o.rootT.Underlying().(*types.Struct)
+	isOwner := false
+	for _, t := range st.tokens {
+		if t.obj == o.root {
+			isOwner = true
+		}
+	}
+	if !isOwner {
+		for _, fname := range c.Published[o.field] {
+			idx, f := findField(stt, fname)
+			if idx < 0 {
+				continue
+			}
+			for _, cp := range e.flatten(f.Type()) {
+				name := heapName(e, o.rootT, "."+fname+cp.Path)
+				e.noteRef(name, cp)
+				a := st.arr(name, arrSort(cp.Sort))
+				nv := st.fresh("pub."+fname+cp.Path, cp.Sort)
+				st.assumeRange(cp, nv)
+				st.setArr(name, arrSort(cp.Sort), store(a, o.root, nv))
+			}
+		}
+	}
+	st.recvd[o.root] = true
+	self := Val{T: types.NewPointer(o.rootT), C: []string{o.root}}
+	for _, cl := range c.ChanPubs[o.field] {
+		sc := &SpecCtx{st: st, vars: map[string]Val{"self": self}, old: fr.old, where: "chanpub " + o.typ}
+		st.assume(e.evalClause(sc, cl))
+	}
+	e.assumeUsed("close(ch) happens-before a receive that completes because of it: fields published before close are visible after the receive")
+}
+
+// guardPublished: fields published through a channel may be written only by the owner (token holder) before the
+// close, and read only by the owner or after a completed receive.
+func (st *State) guardPublished(fr *Frame, p *Ptr, write bool, pos token.Pos) {
+	if p.Kind != PObj || p.Path == "" {
+		return
+	}
+	e := st.e
+	tn := e.P.relType(p.RootT)
+	c := e.contracts["type "+tn]
+	if c == nil || len(c.Published) == 0 {
+		return
+	}
+	f := strings.TrimPrefix(p.Path, ".")
+	for ch, fields := range c.Published {
+		for _, pf := range fields {
+			if pf != f && !strings.HasPrefix(f, pf+".") {
+				continue
+			}
+			if st.private[p.Root] {
+				return
+			}
+			ok := false
+			for _, t := range st.tokens {
+				if t.obj == p.Root {
+					ok = true
+				}
+			}
+			if !write && st.recvd[p.Root] {
+				ok = true
+			}
+			goal := "false"
+			if ok {
+				goal = "true"
+			}
+			rw := "read"
+			if write {
+				rw = "write"
+			}
+			st.oblige("own", fmt.Sprintf("published:%s.%s:%s", tn, pf, rw), c.Props, goal, pos)
+			_ = ch
+			return
+		}
+	}
+}
+
+// usesTokens: does the function under verification deal with token maps at all (so that tok:leak is meaningful)?
+func (st *State) usesTokens(fr *Frame) bool {
+	if fr.contract != nil && len(fr.contract.Holds) > 0 {
+		return true
+	}
+	return st.sawTokens
 }
